@@ -1,47 +1,60 @@
-import PytaskProofs.Lemmas.EngineCrash
-import PytaskProofs.Lemmas.EngineConverge
-import PytaskProofs.Lemmas.CrashGraph
-import PytaskProofs.Lemmas.CrashExit
+import PytaskProofs.Lemmas.CrashTxn
 /-!
 # C05 — abrupt termination never leaves state that hides outstanding work
 
 Model: `PytaskModel/EngineCrash.lean` refines every build of `PytaskModel/Engine.lean` into the list of its atomic world
-updates (one product write, one committed state row); a process killed at any instant leaves `crashAt … k` for some `k`.
-Vocabulary (defined in `Lemmas/EngineCrash.lean`):
+updates: one product write, or ALL state rows of one task in one transaction (`Generated.rowsSingleTransaction`, extracted
+from `database_utils.py` — the code after the repair of finding F50); a process killed at any instant leaves `crashAt … k`
+for some `k`. Vocabulary (defined in `Lemmas/EngineCrash.lean`):
 * `RowsMatch P g w t` — every neighbour of `t` exists and its row equals its state: exactly when pytask reports `t` unchanged;
 * `Fresh F w t`      — the products of `t` on disk are what its body makes of the module and dependency contents on disk;
 * `Inv F P g w`      — every task whose rows match is fresh (the C02 invariant): *no stale "unchanged"*;
 * `RC F P g db`      — every *complete* row set in the database is one consistent snapshot (a property of the database alone,
-                       so no file edit can break it; it holds for the empty database and after every finished build);
+                       so no file edit can break it; it holds for the empty database, after every finished build, and — with
+                       one transaction per task — at every kill point);
 * `WFSpec P`         — decidable conditions on the declared project: unique task ids, one producer per product, no task consumes
                        its own product or writes a module file, bodies that return have written all their products, no `persist`
-                       marks (those record stale products on purpose, cf. C02). `WF P g` adds that the build's graph has the
-                       declared edges — derived from `createDag` in `Lemmas/EngineGraph.lean`.
+                       marks (those record stale products on purpose, cf. C02).
+The per-row step lists `…Each` (one commit per row, the code before the repair) remain as the fine-grained refinement:
+`Lemmas/CrashTxn.lean` shows that every kill-point world of the transactional lists is one of theirs.
 -/
 namespace Pytask
 open Engine
 
 /-- **applySteps_all.** Applying all atomic updates that the step model lists for a build gives exactly the world that
-`Engine.build` computes: the step model refines the engine model, `crashAt k` for large `k` is the finished build and the
-shorter prefixes are the worlds a kill can leave behind. -/
+`Engine.build` computes (task ids are unique; `update_states_in_database` never raises, `EngineNoCrash.lean`): the step model
+refines the engine model, `crashAt k` for large `k` is the finished build and the shorter prefixes are the worlds a kill can
+leave behind. -/
 theorem C05_applySteps_all (F : BodyFn) (P : Project) (cfg : Cfg) (w : World) (picks : List Nat) (r : Result)
-    (h : build F P cfg w picks = .ok r) : applySteps w (buildSteps F P cfg w picks) = r.w :=
-  applySteps_build F P cfg w picks r h
+    (g : G) (marks : List Nat) (hdag : createDag P cfg = .ok (g, marks)) (hn : (P.tasks.map (·.id)).Nodup)
+    (h : build F P cfg w picks = .ok r) : applySteps w (buildSteps F P cfg w picks) = r.w := by
+  unfold build at h
+  unfold buildSteps
+  simp only [hdag] at h ⊢
+  cases hso : Sorter.fromDag g isTaskV (prioFn P) with
+  | error e => simp only [hso] at h; cases h; rfl
+  | ok so =>
+    simp only [hso] at h ⊢
+    cases hl : buildLoop F P g cfg so { w := w, skipMarks := marks } picks with
+    | error e => simp only [hl] at h; cases h
+    | ok res =>
+      obtain ⟨so', s'⟩ := res
+      simp only [hl] at h
+      cases h
+      exact applySteps_loop_txn F P g cfg picks so _ so' s' hl
+        (Run.no_crash hdag hn (run_of_buildLoop picks so _ so' s' hl) rfl)
 
 /-- **C05_rows_safe** (`inv_crash`). Start any build — any configuration (forced, dry, selections, failure limit), any legal
 schedule, bodies that succeed, raise early or raise after writing — in a world whose database is row-consistent, and kill it
 after any number `k` of atomic updates: in the world that is left, every task whose rows all match the files has fresh
-products. So the next build can report a task unchanged only if its products are what its body would produce now — torn row
-sets (some rows of a task committed, the others not) and half-written product sets included. -/
+products. So the next build can report a task unchanged only if its products are what its body would produce now —
+half-written product sets included. -/
 theorem C05_rows_safe (F : BodyFn) (P : Project) (cfg : Cfg) (w : World) (g : G) (marks : List Nat)
     (hdag : createDag P cfg = .ok (g, marks)) (hs : WFSpec P) (hrc : RC F P g w.db) (picks : List Nat) (k : Nat) :
     Inv F P g (crashAt F P cfg w picks k) := by
-  have hwf := wf_of_createDag hdag hs
-  unfold crashAt buildSteps
-  simp only [hdag]
-  cases hso : Sorter.fromDag g isTaskV (prioFn P) with
-  | error e => simpa using inv_of_rc hwf w hrc
-  | ok so => exact inv_loop_prefix hwf cfg picks so { w := w, skipMarks := marks } hrc k
+  obtain ⟨k', hk'⟩ := crashAt_txn F P cfg w picks k
+  rw [hk']
+  exact rows_safe_each F P cfg w g marks hdag hs hrc picks k'
 
 /-- The hypothesis of `C05_rows_safe` holds initially … -/
 theorem C05_rc_init (F : BodyFn) (P : Project) (g : G) : RC F P g [] := by
@@ -73,6 +86,34 @@ theorem C05_rc_build (F : BodyFn) (P : Project) (cfg : Cfg) (w : World) (g : G) 
         exact absurd hexit (by decide)
       · exact h
 
+/-- **C05_rc_crash.** With all rows of a task in one transaction, the database a kill leaves behind is row-consistent — at
+every kill point of every build started in a row-consistent world. (Uses `Generated.rowsSingleTransaction = true`: with one
+commit per row a kill between two commits leaves a row set that mixes two snapshots, finding F50.) So every history of
+builds, kills and file edits keeps `RC`, and `C05_rows_safe` applies again to the next build whatever happened before. -/
+theorem C05_rc_crash (F : BodyFn) (P : Project) (cfg : Cfg) (w : World) (g : G) (marks : List Nat)
+    (hdag : createDag P cfg = .ok (g, marks)) (hs : WFSpec P) (hrc : RC F P g w.db) (picks : List Nat) (k : Nat) :
+    RC F P g (crashAt F P cfg w picks k).db :=
+  rc_crashAt hdag (wf_of_createDag hdag hs) w hrc picks k
+
+/-- The statement at full strength: `Inv` also survives an edit of an input file made after the kill ("no later build …",
+read literally). It was false of the code with one commit per row (finding F50: kill between two row commits, then one input
+put back); it holds of the code with one transaction per task. -/
+def C05_edit_after_kill_full : Prop :=
+  ∀ (F : BodyFn) (P : Project) (cfg : Cfg) (w : World) (g : G) (marks : List Nat) (picks : List Nat) (k n c : Nat),
+    createDag P cfg = .ok (g, marks) → WFSpec P → RC F P g w.db → (∀ t ∈ P.tasks, n ∉ t.prods) →
+    Inv F P g (applyStep (crashAt F P cfg w picks k) (.write n c))
+
+theorem C05_edit_after_kill : C05_edit_after_kill_full := by
+  intro F P cfg w g marks picks k n c hdag hs hrc _
+  exact inv_of_rc (wf_of_createDag hdag hs) _ (C05_rc_crash F P cfg w g marks hdag hs hrc picks k)
+
+/-- **C05_edits_after_kill.** More generally: whatever the files are turned into after the kill (any sequence of edits of
+inputs, modules and products), no task can be reported unchanged with stale products. -/
+theorem C05_edits_after_kill (F : BodyFn) (P : Project) (cfg : Cfg) (w : World) (g : G) (marks : List Nat)
+    (hdag : createDag P cfg = .ok (g, marks)) (hs : WFSpec P) (hrc : RC F P g w.db) (picks : List Nat) (k : Nat) (fs' : FS) :
+    Inv F P g { (crashAt F P cfg w picks k) with fs := fs' } :=
+  inv_of_rc (wf_of_createDag hdag hs) _ (C05_rc_crash F P cfg w g marks hdag hs hrc picks k)
+
 /-- **C05_no_redo_step** (the local form). Suppose the killed build completed the protocol of `spec` with SUCCESS — body and teardown went through
 and every row of `spec` was committed (`hok`) — and whatever happened afterwards, before the kill and in the recovery build
 before `spec`'s turn (`later`), left `spec`'s module, dependencies and products alone. Then a non-forced recovery build does
@@ -93,7 +134,7 @@ theorem C05_no_redo_step (F : BodyFn) (P : Project) (g : G) (cfg cfg' : Cfg) (s 
 /-- **C05_no_redo.** A build is killed at an arbitrary point `j` of the protocol of `tstar`, after it had processed the tasks
 `done`, each reported SUCCESS or SKIP_UNCHANGED (so their completion had been logged). Then a non-forced recovery build — any
 schedule, any selection or failure limit, whatever else it executes, fails or skips — does not execute any task of `done`
-again. (With `C05_converge_partial`: the others run again if they need to, these never do.) -/
+again. -/
 theorem C05_no_redo (F : BodyFn) (P : Project) (cfg cfg' : Cfg) (g : G) (marks marks' : List Nat)
     (hs : WFSpec P) (hdag : createDag P cfg = .ok (g, marks))
     (so0 : Sorter) (hso : Sorter.fromDag g isTaskV (prioFn P) = .ok so0)
@@ -105,29 +146,10 @@ theorem C05_no_redo (F : BodyFn) (P : Project) (cfg cfg' : Cfg) (g : G) (marks m
     (hloop2 : buildLoop F P g cfg' so0
       { w := applySteps s1.w ((protocolSteps F P g cfg s1 specS).take j), skipMarks := marks' } picks2 = .ok (so3, s3))
     (hforce : cfg'.force = false) : ∀ t ∈ done, t ∉ s3.log := by
-  have hwf := wf_of_createDag hdag hs
-  have hbip := hbip_of_createDag hdag
-  have hD1 : ∀ t' ∈ done, RowsMatch P g s1.w t' := by
-    have := rowsMatch_loop hwf hbip cfg done so0 _ so1 s1 [] (fun _ h => by cases h) hloop1 hgood1 hcr1
-      (frameOrdered_of_loop F hdag hs so0 so1 _ s1 done hso hloop1)
-    simpa using this
-  have hav := avoids_of_loop F hdag hs so0 so1 _ s1 done hso hloop1
-  have hnot : tstar ∉ done := by
-    have hnd := (C01_once F P cfg g so0 soS _ sS (done ++ [tstar]) hso
-      (buildLoop_append_ok F P g cfg done [tstar] so0 _ so1 s1 (soS, sS) hloop1 hpickS)).1
-    exact fun h => (List.nodup_append.1 hnd).2.2 tstar h tstar (by simp) rfl
-  have hidS : specS.id = tstar := find?_id hfindS
-  have hDw : ∀ t' ∈ done,
-      RowsMatch P g (applySteps s1.w ((protocolSteps F P g cfg s1 specS).take j)) t' := by
-    intro t' ht'
-    apply rowsMatch_frame P g t' (hbip t') _ _ _ (hD1 t' ht')
-    intro x hx
-    exact protocolSteps_avoid F P g cfg s1 specS t' (by rw [hidS]; exact fun h => hnot (h ▸ ht'))
-      (hav tstar specS hfindS hnot t' ht') x (List.mem_of_mem_take hx)
-  obtain ⟨_, l, hl, hl'⟩ := noredo_loop F hbip hs.noPersist cfg' hforce done hav picks2 so0 _ so3 s3 hDw hloop2
-  intro t ht hin
-  rw [hl] at hin
-  exact hl' t (by simpa using hin) ht
+  obtain ⟨j', _, hj'⟩ := protocol_prefix_txn F P g cfg s1 specS j
+  rw [hj'] at hloop2
+  exact no_redo_each F P cfg cfg' g marks marks' hs hdag so0 hso w0 done tstar specS so1 soS s1 sS hloop1 hgood1 hcr1 hpickS
+    hfindS j' picks2 so3 s3 hloop2 hforce
 
 /-- **C05_unchanged_iff_rows** ("reports unchanged" is "all rows match"): the link between the outcome pytask shows and
 `RowsMatch`, in both directions, for non-forced builds. -/
@@ -146,7 +168,7 @@ theorem C05_converge_step (F : BodyFn) (P : Project) (g : G) (cfg : Cfg) (s : Se
     Fresh F (protocol F P g cfg s spec).w spec := by
   have hfs : (protocol F P g cfg s spec).w.fs = (runPhases F P g cfg s spec).2.w.fs := by
     rw [← applySteps_protocol]
-    unfold protocolSteps
+    unfold protocolStepsEach
     simp only []
     rw [applySteps_append, applySteps_phases]
     exact applySteps_onlyRows_fs (reportSteps_onlyRows P g cfg _ spec _) _
@@ -156,72 +178,29 @@ theorem C05_converge_step (F : BodyFn) (P : Project) (g : G) (cfg : Cfg) (s : Se
   · obtain ⟨hm, hs⟩ := rowsMatch_of_skippedUnchanged F P g cfg s spec h
     exact fresh_of_fs_eq (by rw [hfs, hs]) (hinv spec hspec hm)
 
-/-- **C05_converge_partial.** A build (configuration `cfg`) is started in a row-consistent world `w0` (`hrc`; every pre-crash
-history of finished builds and file edits gives one, `C05_rc_init/_build`), processes the tasks `done` — each reported SUCCESS or
-SKIP_UNCHANGED — picks `tstar` and is killed after an arbitrary number `j` of the atomic updates of `tstar`'s protocol (before
-it, between two product writes, between two row commits, after it). A recovery build (any configuration `cfg'`: forced or not,
-any legal schedule `picks2`) then runs in the world the kill left, processes every task and reports SUCCESS or SKIP_UNCHANGED for
-each. Then
+/-- **C05_converge.** A build — ANY configuration, any legal schedule, tasks that fail, are skipped or succeed — is started in
+a row-consistent world `w0` (every history of finished builds, earlier kills and file edits gives one: `C05_rc_init`,
+`C05_rc_build`, `C05_rc_crash`) and killed after ANY number `k` of atomic updates. A recovery build of a project without skip
+markers, without `-k`/`-m` selection and not a dry-run (forced or not, any failure limit) runs in the world the kill left, its
+loop runs to its end and it returns **exit code 0**. Then
 * every product on disk is its body's function of the module and dependency contents on disk — the from-scratch fixpoint;
 * all rows of all tasks match the files;
-* every later non-forced build executes nothing and changes nothing ("then stays quiet").
-
-All scheduling facts are derived (`Lemmas/EngineGraph.lean`): the graph is the one `createDag` builds, the sorter the one
-`from_dag` builds, `C01_order` / `C01_once` give that producers are processed before consumers and nobody writes into the
-neighbourhood of an already processed task. `WFSpec P` are decidable conditions on the declared project (unique ids and
-producers, no self-consumption, bodies that return have written their products, no `persist`).
-
-*What separates this from the full statement:* "every report is SUCCESS or SKIP_UNCHANGED" stands for "exit code 0 and no skip
-markers / selections" (the step from exit code to reports is C08's); and the tasks the killed build processed *before* the kill
-are assumed to have ended SUCCESS / SKIP_UNCHANGED — for killed builds with failed or skipped tasks one needs the failure
-containment `C04_contain` (a task whose body ran has no failed or skipped producer) to see that the torn task's producers are
-settled. Torn row sets, half-written product sets, forced recovery builds and every `j` are covered. -/
-theorem C05_converge_partial (F : BodyFn) (P : Project) (cfg cfg' : Cfg) (g : G) (marks marks' : List Nat)
-    (hs : WFSpec P) (hdag : createDag P cfg = .ok (g, marks)) (hdag' : createDag P cfg' = .ok (g, marks'))
-    (so0 : Sorter) (hso : Sorter.fromDag g isTaskV (prioFn P) = .ok so0)
-    -- the killed build
-    (w0 : World) (hrc : RC F P g w0.db) (done : List Nat) (tstar : Nat) (specS : TaskSpec) (so1 soS : Sorter) (s1 sS : Sess)
-    (hloop1 : buildLoop F P g cfg so0 { w := w0, skipMarks := marks } done = .ok (so1, s1))
-    (hgood1 : ∀ rep ∈ s1.reports, GoodOutcome rep.2)
-    (hpickS : buildLoop F P g cfg so1 s1 [tstar] = .ok (soS, sS)) (hfindS : Project.find? P tstar = some specS) (j : Nat)
-    -- the recovery build, in a new process
-    (picks2 : List Nat) (so3 : Sorter) (s3 : Sess)
-    (hloop2 : buildLoop F P g cfg' so0
-      { w := applySteps s1.w ((protocolSteps F P g cfg s1 specS).take j), skipMarks := marks' } picks2 = .ok (so3, s3))
-    (hgood2 : ∀ rep ∈ s3.reports, GoodOutcome rep.2) (hcr : s3.crashed = false) (hall : ∀ t ∈ P.tasks, t.id ∈ picks2) :
-    (∀ t ∈ P.tasks, Fresh F s3.w t) ∧ (∀ t ∈ P.tasks, RowsMatch P g s3.w t.id) ∧
-    (∀ (cfg'' : Cfg) (so4 so5 : Sorter) (s4 s5 : Sess) (picks : List Nat), cfg''.force = false → s4.w = s3.w →
-        buildLoop F P g cfg'' so4 s4 picks = .ok (so5, s5) → s5.log = s4.log ∧ s5.w = s4.w) :=
-  converge_abstract F P g cfg cfg' (wf_of_createDag hdag hs) (wf2_of_spec hs) (hbip_of_createDag hdag)
-    so0 so1 _ s1 hrc done tstar specS hloop1 hgood1 hfindS
-    (dataOrdered_of_loop F hdag hs so0 soS _ sS (done ++ [tstar]) hso
-      (buildLoop_append_ok F P g cfg done [tstar] so0 _ so1 s1 (soS, sS) hloop1 hpickS))
-    j _ rfl so0 so3 _ s3 rfl picks2 hloop2 hgood2 hcr hall
-    (dataOrdered_of_loop F hdag' hs so0 so3 _ s3 picks2 hso hloop2)
-    (frameOrdered_of_loop F hdag' hs so0 so3 _ s3 picks2 hso hloop2)
-
-/-- **C05_converge** (the statement in terms of what pytask returns). As `C05_converge_partial`, with the recovery build given
-as a `build` result: a project without skip markers, a recovery build without `-k`/`-m` selection and not a dry-run (forced
-or not, any failure limit), whose loop ran to its end (`complete`) and which returned **exit code 0**. Then every product is
-its body's function of the module and dependency contents on disk, all rows match, and every later non-forced build, under
-any configuration, executes nothing and leaves the world as it is. (The remaining gap to the property text is on the side of
-the *killed* build only: the tasks it had processed before the kill are assumed to have ended SUCCESS / SKIP_UNCHANGED; see
-`C05_converge_partial`.) -/
+* every later non-forced build, under any configuration, executes nothing and leaves the world as it is.
+All scheduling facts are derived from `createDag`, `from_dag` and `C01_order` / `C01_once` (`Lemmas/CrashGraph.lean`); "exit 0 and
+complete ⇒ every report is SUCCESS / SKIP_UNCHANGED and every task was processed" is `Lemmas/CrashExit.lean`. -/
 theorem C05_converge (F : BodyFn) (P : Project) (cfg cfg' : Cfg) (g : G) (marks : List Nat)
     (hs : WFSpec P) (hns : NoSkips P) (hdag : createDag P cfg = .ok (g, marks))
     (so0 : Sorter) (hso : Sorter.fromDag g isTaskV (prioFn P) = .ok so0)
     -- the killed build
-    (w0 : World) (hrc : RC F P g w0.db) (done : List Nat) (tstar : Nat) (specS : TaskSpec) (so1 soS : Sorter) (s1 sS : Sess)
-    (hloop1 : buildLoop F P g cfg so0 { w := w0, skipMarks := marks } done = .ok (so1, s1))
-    (hgood1 : ∀ rep ∈ s1.reports, GoodOutcome rep.2)
-    (hpickS : buildLoop F P g cfg so1 s1 [tstar] = .ok (soS, sS)) (hfindS : Project.find? P tstar = some specS) (j : Nat)
+    (w0 : World) (hrc : RC F P g w0.db) (picks : List Nat) (k : Nat)
     -- the recovery build
     (hk : cfg'.selK = none) (hm : cfg'.selM = none) (hdry : cfg'.dry = false) (picks2 : List Nat) (r : Result)
-    (hb : build F P cfg' (applySteps s1.w ((protocolSteps F P g cfg s1 specS).take j)) picks2 = .ok r)
+    (hb : build F P cfg' (crashAt F P cfg w0 picks k) picks2 = .ok r)
     (hexit : r.exit = 0) (hcomplete : r.complete = true) :
     (∀ t ∈ P.tasks, Fresh F r.w t) ∧ (∀ t ∈ P.tasks, RowsMatch P g r.w t.id) ∧
-    (∀ (cfg'' : Cfg) (picks : List Nat) (r' : Result), cfg''.force = false → build F P cfg'' r.w picks = .ok r' →
+    (∀ (cfg'' : Cfg) (picks3 : List Nat) (r' : Result), cfg''.force = false → build F P cfg'' r.w picks3 = .ok r' →
         r'.log = [] ∧ r'.w = r.w) := by
+  have hrc1 := C05_rc_crash F P cfg w0 g marks hdag hs hrc picks k
   obtain ⟨marks', hdag'⟩ := createDag_cfg P cfg cfg' g marks hdag
   have hmarks : marks' = [] := by rw [createDag_marks P cfg' g marks' hdag', deselected_none P g cfg' hk hm]
   subst hmarks
@@ -238,45 +217,15 @@ theorem C05_converge (F : BodyFn) (P : Project) (cfg cfg' : Cfg) (g : G) (marks 
     rw [hco, hstop, hcr] at hcomplete
     simpa using hcomplete
   have hall := all_picked F hdag' so0 so3 _ s3 picks2 hso hloop2 hinactive
-  obtain ⟨h1, h2, h3⟩ := C05_converge_partial F P cfg cfg' g marks [] hs hdag hdag' so0 hso w0 hrc done tstar specS so1 soS s1 sS
-    hloop1 hgood1 hpickS hfindS j picks2 so3 s3 hloop2 hgood2 hcr hall
+  obtain ⟨h1, h2, h3⟩ := converge_rc_loop F P g cfg' cfg marks hs hdag so0 hso _ hrc1 picks2 so3 s3 hloop2 hgood2 hcr hall
   rw [hw]
   refine ⟨h1, h2, ?_⟩
-  intro cfg'' picks r' hforce hb'
+  intro cfg'' picks3 r' hforce hb'
   obtain ⟨marks'', hdag''⟩ := createDag_cfg P cfg cfg'' g marks hdag
-  obtain ⟨so5, s5, hloop3, hw', hl', _, _⟩ := build_ok_loop F P cfg'' _ picks r' g marks'' so0 hdag'' hso hb'
-  have := h3 cfg'' so0 so5 { w := s3.w, skipMarks := marks'' } s5 picks hforce rfl hloop3
+  obtain ⟨so5, s5, hloop3, hw', hl', _, _⟩ := build_ok_loop F P cfg'' _ picks3 r' g marks'' so0 hdag'' hso hb'
+  have := h3 cfg'' so0 so5 { w := s3.w, skipMarks := marks'' } s5 picks3 hforce rfl hloop3
   rw [hw', hl']
   exact ⟨this.1, this.2⟩
-
-/-! ### The limit: an edit between the kill and the recovery build (finding F50)
-
-Read literally ("no later build …"), the property also covers builds that follow *edits made after the kill*. At that strength
-it is **false of the current code**: a kill between two row commits of a task leaves a row set that mixes two snapshots, and a
-later edit that puts one input back can make every row match although the product belongs to neither snapshot's inputs.
-Witness (replayed on the real code, `findings/F50.json`): a task that writes whether its two inputs agree; both inputs are
-edited from `0` to `1` (the product stays the same), the rebuild is killed after the first row commit, the second input is put
-back to `0`: all four rows match, the task is reported unchanged, the product still says "agree". -/
-
-/-- The statement at full strength: `Inv` also survives an edit of an input file made after the kill. -/
-def C05_edit_after_kill_full : Prop :=
-  ∀ (F : BodyFn) (P : Project) (cfg : Cfg) (w : World) (g : G) (marks : List Nat) (picks : List Nat) (k n c : Nat),
-    createDag P cfg = .ok (g, marks) → WFSpec P → RC F P g w.db → (∀ t ∈ P.tasks, n ∉ t.prods) →
-    Inv F P g (applyStep (crashAt F P cfg w picks k) (.write n c))
-
-theorem C05_edit_after_kill_full_false : ¬ C05_edit_after_kill_full := by
-  intro h
-  have hinv := h f50F f50P {} f50W f50G [] [0] 2 11 0 (by rfl) f50_wfspec f50_rc (by decide)
-  have hF := hinv f50T (by simp [f50P]) f50_rowsMatch (20, 0) (by decide)
-  exact absurd hF (by decide)
-
-/-- **C05_edit_after_kill_partial.** What is true with edits: if the kill did not cut a row set in two — the database left
-behind is row-consistent, e.g. because the kill fell outside `update_states_in_database`, or because all rows of a task are
-committed in one transaction (the repair proposed in `fixes/F50.diff`) — then `Inv` holds for *every* content of the files, so
-no sequence of later edits can produce a stale "unchanged". -/
-theorem C05_edit_after_kill_partial (F : BodyFn) (P : Project) (g : G) (hwf : WF P g) (w : World) (hrc : RC F P g w.db)
-    (fs' : FS) : Inv F P g { w with fs := fs' } :=
-  inv_of_rc hwf _ hrc
 
 /-- **memo_garbage_ok.** Whatever bytes a killed writer (or anything else) left in `.pytask/file_hashes.json`: if they do not
 parse, `pytask_post_parse` starts with the empty memo (`Generated.memoLoadSuppressed`: the whole load sits in
@@ -306,61 +255,57 @@ theorem C05_memo_garbage_ok (parse : List UInt8 → Option Memo) (file : Option 
       rw [hc] at this
       exact (Option.some.inj this).symm
 
-/-! ## Non-vacuity: a concrete two-task chain, killed in the middle of the row commits of its first task -/
+/-! ## Non-vacuity: a concrete two-task chain (`c05P`, data in `Lemmas/EngineCrash.lean`), killed at various points -/
 
 example : createDag c05P {} = .ok (c05G, []) := by rfl
 
-/-- the build has 10 atomic updates; after 4 of them both products of task 0 are written and two of its four rows committed -/
-example : (buildSteps c05F c05P {} c05W [0, 1]).length = 10 := by decide
-example : (crashAt c05F c05P {} c05W [0, 1] 4).db.length = 2 ∧ (crashAt c05F c05P {} c05W [0, 1] 4).fs.length = 4 := by decide
-/-- `C05_rows_safe` applies to that torn world -/
-example : Inv c05F c05P c05G (crashAt c05F c05P {} c05W [0, 1] 4) :=
-  C05_rows_safe c05F c05P {} c05W c05G [] (by rfl) c05_wfspec (C05_rc_init _ _ _) [0, 1] 4
-/-- the recovery build from the torn world executes both tasks again (task 0 did not complete), then nothing -/
-example : (build c05F c05P {} (crashAt c05F c05P {} c05W [0, 1] 4) [0, 1]).toOption.map (·.log) = some [0, 1] := by decide
-/-- killed after all rows of task 0 were committed (8 = 2 writes + 4 rows + task 1's write + 1 row): task 0 is not executed again -/
-example : (build c05F c05P {} (crashAt c05F c05P {} c05W [0, 1] 8) [0, 1]).toOption.map (·.log) = some [1] := by decide
-/-- hypotheses of `C05_no_redo` on this project: the protocol of task 0 succeeds and commits all its rows -/
-example : (runPhases c05F c05P c05G {} { w := c05W } c05P.tasks.head!).1 = .none ∧
-    (updateStates c05P c05G (runPhases c05F c05P c05G {} { w := c05W } c05P.tasks.head!).2.w 0 (neighbours c05G 0)).2 = true := by decide
-/-- `C05_converge_partial` instantiated: the build is killed after 4 atomic updates (inside the row commits of task 0), the
-recovery build processes 0 and 1 and reports SUCCESS for both — all hypotheses hold on this project, and the conclusion gives
-the from-scratch fixpoint for the recovered world. -/
-example : ∃ (so3 : Sorter) (s3 : Sess),
-    buildLoop c05F c05P c05G {} c05So { w := applySteps c05W ((protocolSteps c05F c05P c05G {} { w := c05W } c05T0).take 4) } [0, 1]
-      = .ok (so3, s3) ∧ s3.reports = [(0, .success), (1, .success)] ∧ ∀ t ∈ c05P.tasks, Fresh c05F s3.w t := by
-  refine ⟨_, _, rfl, by decide, ?_⟩
-  exact (C05_converge_partial c05F c05P {} {} c05G [] [] c05_wfspec (by rfl) (by rfl) c05So (by rfl)
-    c05W (C05_rc_init _ _ _) [] 0 c05T0 c05So _ { w := c05W } _ rfl (by intro rep h; cases h) rfl rfl 4
-    [0, 1] _ _ rfl (by decide) (by decide) (by intro t ht; simp [c05P] at ht; rcases ht with rfl | rfl <;> decide)).1
+/-- the build has 5 atomic updates: two product writes and one transaction for task 0, one write and one transaction for task 1 -/
+example : (buildSteps c05F c05P {} c05W [0, 1]).length = 5 := by decide
+/-- killed after 2 of them: both products of task 0 are written, none of its rows; after 3: all four rows -/
+example : (crashAt c05F c05P {} c05W [0, 1] 2).db.length = 0 ∧ (crashAt c05F c05P {} c05W [0, 1] 2).fs.length = 4 ∧
+    (crashAt c05F c05P {} c05W [0, 1] 3).db.length = 4 := by decide
+/-- `C05_rows_safe` and `C05_rc_crash` apply to these worlds -/
+example : Inv c05F c05P c05G (crashAt c05F c05P {} c05W [0, 1] 2) :=
+  C05_rows_safe c05F c05P {} c05W c05G [] (by rfl) c05_wfspec (C05_rc_init _ _ _) [0, 1] 2
+example : RC c05F c05P c05G (crashAt c05F c05P {} c05W [0, 1] 3).db :=
+  C05_rc_crash c05F c05P {} c05W c05G [] (by rfl) c05_wfspec (C05_rc_init _ _ _) [0, 1] 3
+/-- the recovery build after a kill before the transaction of task 0 executes both tasks again, then nothing -/
+example : (build c05F c05P {} (crashAt c05F c05P {} c05W [0, 1] 2) [0, 1]).toOption.map (·.log) = some [0, 1] := by decide
+/-- killed after the transaction of task 0 (and the product write of task 1): task 0 is not executed again -/
+example : (build c05F c05P {} (crashAt c05F c05P {} c05W [0, 1] 4) [0, 1]).toOption.map (·.log) = some [1] := by decide
+/-- hypotheses of `C05_no_redo_step` on this project: the protocol of task 0 succeeds and commits all its rows -/
+example : (runPhases c05F c05P c05G {} { w := c05W } c05T0).1 = .none ∧
+    (updateStates c05P c05G (runPhases c05F c05P c05G {} { w := c05W } c05T0).2.w 0 (neighbours c05G 0)).2 = true := by decide
 
-/-- `C05_no_redo` instantiated: task 0 completed, the build is killed inside the row commits of task 1 (after its product write
-and one row), the recovery build processes 0 and 1: its hypotheses hold, and it yields that task 0 is not executed again. -/
+/-- `C05_no_redo` instantiated: task 0 completed, the build is killed after the product write of task 1 (before its transaction),
+the recovery build processes 0 and 1: the hypotheses hold, and the theorem yields that task 0 is not executed again. -/
 example : ∃ (so1 soS so3 : Sorter) (s1 sS s3 : Sess),
     buildLoop c05F c05P c05G {} c05So { w := c05W, skipMarks := [] } [0] = .ok (so1, s1) ∧
     buildLoop c05F c05P c05G {} so1 s1 [1] = .ok (soS, sS) ∧
     buildLoop c05F c05P c05G {} c05So
-      { w := applySteps s1.w ((protocolSteps c05F c05P c05G {} s1 c05T1).take 2), skipMarks := [] } [0, 1] = .ok (so3, s3) ∧
+      { w := applySteps s1.w ((protocolSteps c05F c05P c05G {} s1 c05T1).take 1), skipMarks := [] } [0, 1] = .ok (so3, s3) ∧
     s3.log = [1] ∧ ∀ t ∈ [0], t ∉ s3.log := by
   refine ⟨_, _, _, _, _, _, rfl, rfl, rfl, by decide, ?_⟩
   exact C05_no_redo c05F c05P {} {} c05G [] [] c05_wfspec (by rfl) c05So (by rfl) c05W [0] 1 c05T1 _ _ _ _ rfl (by decide) rfl
-    rfl rfl 2 [0, 1] _ _ rfl rfl
+    rfl rfl 1 [0, 1] _ _ rfl rfl
 
-/-- `C05_converge` instantiated: killed inside the row commits of task 0; the recovery `build` returns exit code 0 with a complete
-loop — all hypotheses hold, the conclusion gives the from-scratch fixpoint of the recovered world. -/
+/-- `C05_converge` instantiated: killed after the product writes of task 0; the recovery `build` returns exit code 0 with a
+complete loop — all hypotheses hold, the conclusion gives the from-scratch fixpoint of the recovered world. -/
 example : ∃ r : Result,
-    build c05F c05P {} (applySteps c05W ((protocolSteps c05F c05P c05G {} { w := c05W, skipMarks := [] } c05T0).take 4)) [0, 1] = .ok r ∧
+    build c05F c05P {} (crashAt c05F c05P {} c05W [0, 1] 2) [0, 1] = .ok r ∧
     r.exit = 0 ∧ r.complete = true ∧ r.log = [0, 1] ∧ ∀ t ∈ c05P.tasks, Fresh c05F r.w t := by
   refine ⟨_, rfl, by decide, by decide, by decide, ?_⟩
   exact (C05_converge c05F c05P {} {} c05G [] c05_wfspec
     (by intro t ht; simp [c05P] at ht; rcases ht with rfl | rfl <;> exact ⟨rfl, rfl⟩) (by rfl) c05So (by rfl)
-    c05W (C05_rc_init _ _ _) [] 0 c05T0 c05So _ _ _ rfl (by intro rep h; cases h) rfl rfl 4 rfl rfl rfl [0, 1] _ rfl
-    (by decide) (by decide)).1
+    c05W (C05_rc_init _ _ _) [0, 1] 2 rfl rfl rfl [0, 1] _ rfl (by decide) (by decide)).1
 
-/-- the F50 witness in the model: after the kill and the edit, the recovery build reports the task unchanged and leaves the
-stale product (`0` = "agree") although the inputs now differ (`1`, `0`) -/
-example : (build f50F f50P {} (applyStep (crashAt f50F f50P {} f50W [0] 2) (.write 11 0)) [0]).toOption.map
-    (fun r => (r.reports, r.log, lookup r.w.fs 20)) = some ([(0, .skipUnchanged)], [], some 0) := by decide
+/-- the F50 scenario in the model of the repaired code (`f50P`: a task that writes whether its two inputs agree; both inputs
+edited 0 → 1, product unchanged): wherever the rebuild is killed (0, 1 or 2 atomic updates) and the second input then put back,
+the recovery build executes the task and writes "differ" (1) — `C05_edit_after_kill` applies -/
+example : ∀ k ∈ [0, 1, 2], (build f50F f50P {} (applyStep (crashAt f50F f50P {} f50W [0] k) (.write 11 0)) [0]).toOption.map
+    (fun r => (r.reports, r.log, lookup r.w.fs 20)) = some ([(0, .success)], [0], some 1) := by decide
+example : Inv f50F f50P f50G (applyStep (crashAt f50F f50P {} f50W [0] 2) (.write 11 0)) :=
+  C05_edit_after_kill f50F f50P {} f50W f50G [] [0] 2 11 0 (by rfl) f50_wfspec f50_rc (by decide)
 
 /-- garbage in the memo file loads as the empty memo -/
 example : loadMemo (fun _ => none) (some [0xff, 0xfe]) = some [] := by decide
